@@ -100,7 +100,12 @@ pub fn complete(
 
                 if let Some(opt) = opt {
                     valid_arg_found = true;
-                    if opt.get_num_args().expect("built").takes_values() && value.is_none() {
+                    // Like the real parser, an option that requires `=` never takes the next
+                    // word as its value
+                    if opt.get_num_args().expect("built").takes_values()
+                        && value.is_none()
+                        && !opt.is_require_equals_set()
+                    {
                         next_state = ParseState::Opt((opt, 1));
                     };
                 } else if pos_allows_hyphen(current_cmd, pos_index) {
@@ -113,7 +118,7 @@ pub fn complete(
             let (flags, takes_value_opt, mut short) = parse_shortflags(current_cmd, short);
             if let Some(opt) = takes_value_opt {
                 valid_arg_found = true;
-                if short.next_value_os().is_none() {
+                if short.next_value_os().is_none() && !opt.is_require_equals_set() {
                     next_state = ParseState::Opt((opt, 1));
                 }
             } else if arg.to_value().is_ok() && flags.chars().all(|c| has_short(current_cmd, c)) {
